@@ -33,11 +33,16 @@ def worker(argv):
     for cell in mine:
         if budget and time.time() - t0 > budget:
             break
+        core.PARTIAL = []
         try:
             rs = mod.run_cell(cell, seed)
         except Exception:
-            rs = [core.res(core.INCONCLUSIVE, {'cell': cell}, 'harness',
-                           'harness error: ' + traceback.format_exc()[-600:])]
+            # keep the verdicts reached before the failure: a crash in one sub-check must not hide them
+            rs = list(core.PARTIAL)
+            core.PARTIAL = None
+            rs.append(core.res(core.INCONCLUSIVE, {'cell': cell}, 'harness',
+                               'harness error: ' + traceback.format_exc()[-600:]))
+        core.PARTIAL = None
         w.add(rs)
         done += 1
     w.meta['cells_done'] = done
